@@ -11,84 +11,161 @@ From PV Require Export C08.Model.
 
 Definition spaces (n : nat) : bytes := repeat 32 n.
 
+Definition blank (c : Z) : bool := (c =? 32) || (c =? 9).
+Definition blanks (l : bytes) : bool := forallb blank l.
+
 (* ---------------------------------------------------------------- /proc/meminfo
    One line per counter: name token (with its colon), at least one blank, the value
-   in decimal, " kB" for sizes (absent for HugePages_* counts).  The kernel prints
-   every name once; which names exist depends on version and configuration, so the
-   record is simply the list of lines: every subset and every order is a value of it. *)
-Record mline := { ml_name : bytes; ml_pad : nat; ml_val : bytes; ml_kb : bool }.
+   in decimal, then nothing or a blank followed by anything (" kB" for sizes, nothing for
+   HugePages_* counts, further columns on the "Mem:"/"Swap:" lines of Linux 2.4).
+   The kernel prints every name once; which names exist depends on version and
+   configuration, so the record is simply the list of lines: every subset and every
+   order is a value of it.  [MJunk] is a line that is NOT "name number ...": fewer than two
+   fields or a second field that is not a number -- Linux 2.4 starts the file with
+   "        total:    used:    free:  shared: buffers:  cached:". *)
+Record mline := { ml_name : bytes; ml_pad : nat; ml_val : bytes; ml_rest : bytes }.
+Inductive mitem := MLine (m : mline) | MJunk (b : bytes).
 Definition k_mline (m : mline) : bytes :=
-  ml_name m ++ spaces (S (ml_pad m)) ++ ml_val m ++ (if ml_kb m then bs " kB" else []) ++ [10].
-Definition k_meminfo (ms : list mline) : bytes := concat (map k_mline ms).
+  ml_name m ++ spaces (S (ml_pad m)) ++ ml_val m ++ ml_rest m ++ [10].
+Definition k_mitem (i : mitem) : bytes :=
+  match i with MLine m => k_mline m | MJunk b => b ++ [10] end.
+Definition k_meminfo (ms : list mitem) : bytes := concat (map k_mitem ms).
 
-Definition wf_mline (m : mline) : bool := tok_ok (ml_name m) && is_dec (ml_val m).
+Definition rest_ok (r : bytes) : bool :=
+  negb (contains 10 r) && match r with [] => true | c :: _ => is_ws c end.
+Definition wf_mline (m : mline) : bool := tok_ok (ml_name m) && is_dec (ml_val m) && rest_ok (ml_rest m).
+Definition not_name_number (b : bytes) : bool :=
+  match nth_error (split_ws b) 1 with
+  | None => true
+  | Some t => match parse_int t with None => true | Some _ => false end
+  end.
+Definition wf_mitem (i : mitem) : bool :=
+  match i with
+  | MLine m => wf_mline m
+  | MJunk b => negb (contains 10 b) && not_name_number b
+  end.
+Definition is_mline (i : mitem) : bool := match i with MLine _ => true | MJunk _ => false end.
+Definition no_junk (ms : list mitem) : bool := forallb is_mline ms.
+Fixpoint mnames (ms : list mitem) : list bytes :=
+  match ms with
+  | [] => []
+  | MLine m :: r => ml_name m :: mnames r
+  | MJunk _ :: r => mnames r
+  end.
 Fixpoint nodupb (l : list bytes) : bool :=
   match l with
   | [] => true
   | x :: r => negb (existsb (beqb x) r) && nodupb r
   end.
-Definition wf_meminfo (ms : list mline) : bool :=
-  forallb wf_mline ms && nodupb (map ml_name ms).
+Definition wf_meminfo (ms : list mitem) : bool :=
+  forallb wf_mitem ms && nodupb (mnames ms).
 
 (* the kernel's figure for a counter, in bytes (meminfo is in kB) *)
-Fixpoint kfind (name : bytes) (ms : list mline) : option Z :=
+Fixpoint kfind (name : bytes) (ms : list mitem) : option Z :=
   match ms with
   | [] => None
-  | m :: r => if beqb name (ml_name m) then Some (dec_val (ml_val m)) else kfind name r
+  | MLine m :: r => if beqb name (ml_name m) then Some (dec_val (ml_val m)) else kfind name r
+  | MJunk _ :: r => kfind name r
   end.
-Definition kbytes (ms : list mline) (name : string) : option Z :=
+Definition kbytes (ms : list mitem) (name : string) : option Z :=
   option_map (fun v => v * 1024) (kfind (bs name) ms).
 
+(* the first three lines of /proc/meminfo on Linux 2.4 (fs/proc/proc_misc.c, meminfo_read_proc) *)
+Definition legacy_header (mem_total mem_used mem_free swap_total : bytes) : list mitem :=
+  [ MJunk (bs "        total:    used:    free:  shared: buffers:  cached:");
+    MLine {| ml_name := bs "Mem:"; ml_pad := 1; ml_val := mem_total;
+             ml_rest := 32 :: mem_used ++ 32 :: mem_free ++ bs "        0 134393856 588922880" |};
+    MLine {| ml_name := bs "Swap:"; ml_pad := 0; ml_val := swap_total; ml_rest := bs "   589824 2096844800" |} ].
+
 (* ---------------------------------------------------------------- /proc/zoneinfo
-   Only the per-zone "low" watermark lines matter; every other line is an arbitrary
-   newline-free byte string that does not begin (after blanks) with "low"
+   Only the per-zone "low" watermark lines matter: blanks (spaces or tabs, any number),
+   "low", at least one blank, the page count, optional trailing blanks.  Every other line
+   is an arbitrary newline-free byte string that does not begin (after blanks) with "low"
    (the kernel's other keys are Node, pages free, min, high, spanned, present, managed,
-   protection, nr_*, pagesets, cpu, count, batch, ...). *)
+   protection, nr_*, pagesets, cpu, count, batch, ...).  Any number of zones. *)
 Inductive zline :=
-| ZLow (p1 p2 : nat) (v : bytes)       (* "        low      <pages>" *)
+| ZLow (w1 w2 : bytes) (v : bytes) (w3 : bytes)      (* "        low      <pages>" *)
 | ZOther (b : bytes).
 Definition k_zline (z : zline) : bytes :=
   match z with
-  | ZLow p1 p2 v => spaces p1 ++ bs "low" ++ spaces (S p2) ++ v ++ [10]
+  | ZLow w1 w2 v w3 => w1 ++ bs "low" ++ w2 ++ v ++ w3 ++ [10]
   | ZOther b => b ++ [10]
   end.
 Definition k_zoneinfo (zs : list zline) : bytes := concat (map k_zline zs).
 Definition wf_zline (z : zline) : bool :=
   match z with
-  | ZLow _ _ v => is_dec v
+  | ZLow w1 w2 v w3 => blanks w1 && blanks w2 && match w2 with [] => false | _ => true end
+                       && is_dec v && blanks w3
   | ZOther b => negb (contains 10 b) && negb (prefixb (bs "low") (strip b))
   end.
 Fixpoint low_pages (zs : list zline) : Z :=
   match zs with
   | [] => 0
-  | ZLow _ _ v :: r => dec_val v + low_pages r
+  | ZLow _ _ v _ :: r => dec_val v + low_pages r
   | ZOther _ :: r => low_pages r
   end.
 
 (* ---------------------------------------------------------------- /proc/vmstat
-   "name value\n" lines, every name once.  pswpin/pswpout count PAGES. No other
-   counter name begins with "pswpin"/"pswpout" (true of every vmstat_text so far). *)
-Record vline := { vl_name : bytes; vl_val : bytes }.
-Definition k_vline (v : vline) : bytes := vl_name v ++ 32 :: vl_val v ++ [10].
-Definition k_vmstat (vs : list vline) : bytes := concat (map k_vline vs).
+   "name value\n" lines (a further blank-separated column is tolerated); pswpin/pswpout
+   count PAGES.  No other counter name begins with "pswpin"/"pswpout" (true of every
+   vmstat_text so far).  [VJunk]: any other newline-free line not beginning with those two
+   names (blank lines, names without value, ...).  Names MAY repeat (no kernel does that):
+   the file is then read as a log -- see [sw_scan]. *)
+Record vline := { vl_name : bytes; vl_val : bytes; vl_rest : bytes }.
+Inductive vitem := VLine (v : vline) | VJunk (b : bytes).
+Definition k_vline (v : vline) : bytes := vl_name v ++ 32 :: vl_val v ++ vl_rest v ++ [10].
+Definition k_vitem (i : vitem) : bytes := match i with VLine v => k_vline v | VJunk b => b ++ [10] end.
+Definition k_vmstat (vs : list vitem) : bytes := concat (map k_vitem vs).
 Definition vname_ok (n : bytes) : bool :=
   beqb n (bs "pswpin") || beqb n (bs "pswpout") ||
   (negb (prefixb (bs "pswpin") n) && negb (prefixb (bs "pswpout") n)).
+Definition vrest_ok (r : bytes) : bool :=
+  negb (contains 10 r) && match r with [] => true | c :: _ => c =? 32 end.
 Definition wf_vline (v : vline) : bool :=
-  tok_ok (vl_name v) && vname_ok (vl_name v) && is_dec (vl_val v).
-Definition wf_vmstat (vs : list vline) : bool :=
-  forallb wf_vline vs && nodupb (map vl_name vs).
-Fixpoint vfind (name : bytes) (vs : list vline) : option Z :=
+  tok_ok (vl_name v) && vname_ok (vl_name v) && is_dec (vl_val v) && vrest_ok (vl_rest v).
+Definition wf_vitem (i : vitem) : bool :=
+  match i with
+  | VLine v => wf_vline v
+  | VJunk b => negb (contains 10 b) && negb (prefixb (bs "pswpin") b) && negb (prefixb (bs "pswpout") b)
+  end.
+Definition wf_vmstat (vs : list vitem) : bool := forallb wf_vitem vs.
+Fixpoint vnames (vs : list vitem) : list bytes :=
+  match vs with
+  | [] => []
+  | VLine v :: r => vl_name v :: vnames r
+  | VJunk _ :: r => vnames r
+  end.
+(* lookup by name (meaningful when names are distinct) *)
+Fixpoint vfind (name : bytes) (vs : list vitem) : option Z :=
   match vs with
   | [] => None
-  | v :: r => if beqb name (vl_name v) then Some (dec_val (vl_val v)) else vfind name r
+  | VLine v :: r => if beqb name (vl_name v) then Some (dec_val (vl_val v)) else vfind name r
+  | VJunk _ :: r => vfind name r
+  end.
+(* reading the file as a log: a pswpin / pswpout line sets that counter (replacing an earlier
+   one); the answer is known at the first line after which both counters have been seen *)
+Fixpoint sw_scan (i o : option Z) (vs : list vitem) : option (Z * Z) :=
+  match vs with
+  | [] => None
+  | it :: r =>
+    let '(i', o') :=
+      match it with
+      | VLine v => if beqb (vl_name v) (bs "pswpin") then (Some (dec_val (vl_val v)), o)
+                   else if beqb (vl_name v) (bs "pswpout") then (i, Some (dec_val (vl_val v)))
+                   else (i, o)
+      | VJunk _ => (i, o)
+      end in
+    match i', o' with
+    | Some a, Some b => Some (a, b)
+    | _, _ => sw_scan i' o' r
+    end
   end.
 
 (* ---------------------------------------------------------------- the kernel *)
 Record kernel := {
-  k_mem : list mline;
+  k_mem : list mitem;
   k_zone : option (list zline);       (* None: no /proc/zoneinfo (open fails) *)
-  k_vm : option (list vline);         (* None: no /proc/vmstat *)
+  k_vm : option (list vitem);         (* None: no /proc/vmstat *)
   k_pagesize : Z;
   k_sysinfo : Z * Z * Z               (* sysinfo(2): totalswap, freeswap, mem_unit *)
 }.
@@ -159,6 +236,29 @@ Section VM.
       + (sr - Z.min (sr / 2) wmark_low)
     | _, _, _, _ => sp_free + default0 (G "Cached:")
     end.
+  (* psutil evaluates the watermark formula in double precision (pagecache / 2 and
+     slab_reclaimable / 2.0 are floats).  Doubles represent every multiple of 512 below 2^62
+     exactly, so the evaluation is exact when the watermark is a multiple of 512 (page size
+     a multiple of 512) and free + watermark + pagecache + reclaimable slab < 2^61 bytes (2 EiB).
+     [float_exact] is that condition; it is vacuous when the formula is not evaluated. *)
+  Definition needs_estimate : bool :=
+    match G "MemAvailable:" with Some a => a =? 0 | None => true end.
+  Definition float_exact : bool :=
+    match G "Active(file):", G "Inactive(file):", G "SReclaimable:", k_zone k with
+    | Some af, Some inf, Some sr, Some zs =>
+      negb needs_estimate ||
+      ((0 <=? k_pagesize k) && (k_pagesize k mod 512 =? 0) &&
+       (sp_free + low_pages zs * k_pagesize k + (af + inf) + sr <? 2 ^ 61))
+    | _, _, _, _ => true
+    end.
+  (* is /proc/zoneinfo read at all? *)
+  Definition zone_read : bool :=
+    needs_estimate &&
+    match G "Active(file):", G "Inactive(file):", G "SReclaimable:" with
+    | Some _, Some _, Some _ => true
+    | _, _, _ => false
+    end.
+
   (* the kernel's estimate; the fallback when it is absent or zero *)
   Definition sp_avail_raw :=
     match G "MemAvailable:" with
@@ -210,9 +310,9 @@ Section VM.
     match k_vm k with
     | None => None
     | Some vs =>
-      match vfind (bs "pswpin") vs, vfind (bs "pswpout") vs with
-      | Some i, Some o => Some (i * k_pagesize k, o * k_pagesize k)
-      | _, _ => None
+      match sw_scan None None vs with
+      | Some (i, o) => Some (i * k_pagesize k, o * k_pagesize k)
+      | None => None
       end
     end.
   Definition spec_swap : swapres :=
@@ -229,3 +329,14 @@ End VM.
 (* nearest integer to n/d (d > 0), ties to the even one: what "rounded" means *)
 Definition nearest_even (t n d : Z) : Prop :=
   2 * Z.abs (t * d - n) <= d /\ (2 * Z.abs (t * d - n) = d -> Z.even t = true).
+
+(* ---------------------------------------------------------------- the cached total (psutil._TOTAL_PHYMEM)
+   Ghost state [c]: the total reported by the most recent successful virtual_memory()
+   (None before the first one).  Process.memory_percent() compares the process figure with
+   that total; it evaluates virtual_memory() itself only when nothing (or 0) is cached, and
+   refuses a total that is not positive.  Result: the exact ratio value*100 / total. *)
+Definition sp_memory_percent (c : option Z) (value : Z) (k : kernel) : option Z * outcome (Z * Z) :=
+  let reread := match c with Some t => t =? 0 | None => true end in
+  let t := if reread then sp_total k else default0 c in
+  (if reread then Some (sp_total k) else c,
+   if 0 <? t then Val (value * 100, t) else Exc ValueError).
